@@ -58,17 +58,17 @@ theorem commit_keeps_data (s : FSt) : (step s .commit).data = s.data := by
 
 /-- `set_nested` records the *root* key with its whole previous cell before it touches anything —
 whether or not the nested update then succeeds — so a rollback undoes it wholesale. -/
-theorem set_nested_records_root (s : FSt) (k : Nat) (path : List Nat) (v : Int) :
+theorem set_nested_records_root (s : FSt) (k : Nat) (path : List Nat) (v : VLeaf) :
     (step (step s .begin) (.setNested k path v)).frames = [(k, s.data k)] :: s.frames := by
   obtain ⟨d, fr⟩ := s
   simp [step, toG, gstep, record, lookupF]
 
-theorem set_nested_rollback (s : FSt) (k : Nat) (path : List Nat) (v : Int) :
+theorem set_nested_rollback (s : FSt) (k : Nat) (path : List Nat) (v : VLeaf) :
     run s [.begin, .setNested k path v, .rollback] = s :=
   rollback_restores [.setNested k path v] (.setNested k path v .nil) s
 
 /-- a failed `set_nested` leaves the data untouched -/
-theorem set_nested_error_keeps_data (s : FSt) (k : Nat) (path : List Nat) (v : Int) (e : Err)
+theorem set_nested_error_keeps_data (s : FSt) (k : Nat) (path : List Nat) (v : VLeaf) (e : Err)
     (h : result s (.setNested k path v) = .err e) : (step s (.setNested k path v)).data = s.data := by
   obtain ⟨d, fr⟩ := s
   have hm : setNestedCell path v (d k) = d k := by
@@ -91,30 +91,49 @@ theorem discard_on_commit_counterexample :
     ∃ (inner : List Op), Bal inner ∧
       ((Op.begin :: (inner ++ [.rollback])).foldl stepDiscard ⟨fun _ => {}, []⟩).data 0
         ≠ (⟨fun _ => {}, []⟩ : FSt).data 0 :=
-  ⟨[.begin, .set 0 (.int 1), .commit], .commit (.set 0 (.int 1) .nil) .nil, by decide⟩
+  ⟨[.begin, .set 0 (Val.int 1), .commit], .commit (.set 0 (Val.int 1) .nil) .nil, by decide⟩
 
 /-! Non-vacuity: concrete nested histories meeting the hypotheses. -/
 
 def exInner : List Op :=
-  [.set 0 (.int 1), .begin, .setNested 1 [0] 5, .begin, .remove 2, .rollback, .commit,
-   .begin, .set 2 (.int 9), .commit, .remove 0]
+  [.set 0 (Val.int 1), .begin, .setNested 1 [0] (.int 5), .begin, .remove 2, .rollback, .commit,
+   .begin, .set 2 (Val.int 9), .commit, .remove 0]
 
 def exStore : Nat → Cell := fun k =>
-  if k = 1 then { val := some (.obj [(0, 0)]), ty := true }
-  else if k = 2 then { val := some (.int 7), ty := true } else {}
+  if k = 1 then { val := some (.obj [(0, Val1.int 0)]), ty := true }
+  else if k = 2 then { val := some (Val.int 7), ty := true } else {}
 
 example : balancedFrom 0 exInner = true := by decide
 example : Bal exInner :=
   .set _ _ (.commit (.setNested _ _ _ (.rollback (.remove _ .nil) .nil))
     (.commit (.set _ _ .nil) (.remove _ .nil)))
 -- the inner sequence really changes the store …
-example : (run ⟨exStore, []⟩ (.begin :: exInner)).data 1 = { val := some (.obj [(0, 5)]), ty := true } := by decide
-example : (run ⟨exStore, []⟩ (.begin :: exInner)).data 2 = { val := some (.int 9), ty := true } := by decide
+example : (run ⟨exStore, []⟩ (.begin :: exInner)).data 1 = { val := some (.obj [(0, Val1.int 5)]), ty := true } := by decide
+example : (run ⟨exStore, []⟩ (.begin :: exInner)).data 2 = { val := some (Val.int 9), ty := true } := by decide
 -- … and the rollback puts everything back (instance of the theorem, checked by evaluation too)
 example : (run ⟨exStore, []⟩ (.begin :: (exInner ++ [.rollback]))).data 1 = exStore 1 := by decide
 -- error branches of set_nested are reached
-example : result ⟨exStore, []⟩ (.setNested 0 [0] 1) = .err .fieldNotFound := by decide
-example : result ⟨exStore, []⟩ (.setNested 2 [0] 1) = .err .typeMismatch := by decide
-example : result ⟨exStore, []⟩ (.setNested 1 [1, 0] 1) = .err .fieldNotFound := by decide
+example : result ⟨exStore, []⟩ (.setNested 0 [0] (.int 1)) = .err .fieldNotFound := by decide
+example : result ⟨exStore, []⟩ (.setNested 2 [0] (.int 1)) = .err .typeMismatch := by decide
+example : result ⟨exStore, []⟩ (.setNested 1 [1, 0] (.int 1)) = .err .fieldNotFound := by decide
+
+/-! A key that holds a PRESENT null (or `{f0: null}`) is not an absent key: the rollback brings back exactly that cell
+(seeded change C10-10: `None | Some(Value::Null) => remove`), and `set_nested` does not create a null / missing parent. -/
+def exNullStore : Nat → Cell := fun k =>
+  if k = 0 then { val := some Val.null, ty := true }
+  else if k = 1 then { val := some (.obj [(0, .leaf .null)]), ty := true } else {}
+
+example : exNullStore 0 ≠ ({} : Cell) := by decide
+example : (run ⟨exNullStore, []⟩ [.begin, .remove 0]).data 0 = {} := by decide
+example : (run ⟨exNullStore, []⟩ [.begin, .remove 0, .begin, .set 0 (Val.int 1), .commit, .rollback]).data 0
+    = { val := some Val.null, ty := true } := by decide
+example : result ⟨exNullStore, []⟩ (.setNested 0 [0] (.int 1)) = .err .typeMismatch := by decide
+example : result ⟨exNullStore, []⟩ (.setNested 1 [0, 0] (.int 1)) = .err .typeMismatch := by decide
+example : (run ⟨exNullStore, []⟩ [.setNested 1 [0] .null]).data 1 = exNullStore 1 := by decide
+-- the merge keeps the first recorded value whatever the order in which keys were recorded (seeded change C10-11:
+-- b=0; begin; set c; begin; set b=1; commit; set a; set b=2; rollback  ⇒  b = 0)
+example : (run ⟨fun k => if k = 1 then { val := some (Val.int 0), ty := true } else {}, []⟩
+    [.begin, .set 2 (Val.int 1), .begin, .set 1 (Val.int 1), .commit, .set 0 (Val.int 1), .set 1 (Val.int 2), .rollback]).data 1
+    = { val := some (Val.int 0), ty := true } := by decide
 
 end C10
